@@ -30,7 +30,6 @@ import (
 	"os"
 	"path/filepath"
 	"sort"
-	"strconv"
 	"strings"
 	"sync"
 	"sync/atomic"
@@ -1396,13 +1395,9 @@ func clockFamily(r *hx.Run, a *alphabet) {
 	r.Extra["clock_boundary_reads"] = nb
 }
 
-// budget scales the internal deadlines (VERIF_BUDGET_SCALE=4 on an overloaded machine; the bounds stay the same).
-func budget(d time.Duration) time.Duration {
-	if f, err := strconv.ParseFloat(os.Getenv("VERIF_BUDGET_SCALE"), 64); err == nil && f > 0 {
-		return time.Duration(float64(d) * f)
-	}
-	return d
-}
+// budget stretches a wall-clock allowance that does not go through r.SetDeadline (hx.Budget: machine load or
+// VERIF_BUDGET_SCALE; the bounds stay the same).
+func budget(d time.Duration) time.Duration { return hx.Budget(d) }
 
 func main() {
 	r := hx.New("C15")
@@ -1425,9 +1420,9 @@ func main() {
 		r.Finish()
 	}
 	if r.Thorough() {
-		r.SetDeadline(budget(9 * time.Minute))
+		r.SetDeadline(9 * time.Minute)
 	} else {
-		r.SetDeadline(budget(40 * time.Second))
+		r.SetDeadline(40 * time.Second)
 	}
 	explore(r, a)
 	corrupt(r, a)
